@@ -397,3 +397,49 @@ def count_models_projected(clauses, proj_vars, limit=100000, ctx=None):
         out.append(asg)
         s.add([(-v if model[v] else v) for v in proj_vars])
     return out
+
+
+# --------------------------------------------------------------------------------------------------------------------
+# independent unary counter (reference for population counts at sizes where z3 arithmetic is slow)
+# --------------------------------------------------------------------------------------------------------------------
+
+def unary_counter(xs, next_var):
+    """Definitional clauses for u[j] <=> (at least j of xs are true), j = 1..len(xs).
+    s[i][j] <=> s[i-1][j] or (x_i and s[i-1][j-1]).  Returns (clauses, u (1-based dict), next_var)."""
+    n = len(xs)
+    clauses = []
+    prev = {}   # j -> literal or True/False constants
+    def const(j, i):
+        return True if j == 0 else (False if j > i else None)
+    for i in range(1, n + 1):
+        cur = {}
+        x = xs[i - 1]
+        for j in range(1, i + 1):
+            a = const(j, i - 1)
+            a = prev.get(j) if a is None else a          # s[i-1][j]
+            b = const(j - 1, i - 1)
+            b = prev.get(j - 1) if b is None else b      # s[i-1][j-1]
+            v = next_var
+            next_var += 1
+            cur[j] = v
+            # t = x and b
+            if b is True:
+                t = x
+            elif b is False:
+                t = False
+            else:
+                t = next_var
+                next_var += 1
+                clauses += [[-t, x], [-t, b], [t, -x, -b]]
+            # v <=> a or t
+            terms = [q for q in (a, t) if q is not False]
+            if any(q is True for q in terms):
+                clauses.append([v])
+            elif not terms:
+                clauses.append([-v])
+            else:
+                clauses.append([-v] + terms)
+                for q in terms:
+                    clauses.append([v, -q])
+        prev = cur
+    return clauses, prev, next_var
